@@ -460,6 +460,8 @@ pub fn body(case: &Case, out: &Shared) {
     let dump_derived = case.params.get("dump_derived").copied().unwrap_or(0) != 0;
     let mut rng = Rng::new(mix2(case.run_seed, 0xC0DE));
     let mut mutation_index = 0usize;
+    let mut_from = case.params.get("mut_from").copied().unwrap_or(0) as usize;
+    let mut recycle_at: Option<usize> = None;
     let mut classes: std::collections::BTreeSet<String> = Default::default();
     'outer: for t in &targets {
         let class = crate::exec::class_name(t.class);
@@ -513,7 +515,7 @@ pub fn body(case: &Case, out: &Shared) {
             }
             false
         };
-        let mut run_one = |st: &FsState, what: String, kind: &str| -> bool {
+        let mut run_one = |make: &dyn Fn() -> FsState, what: String, kind: &str| -> bool {
             let idx = mutation_index;
             mutation_index += 1;
             if let Some(o) = only {
@@ -521,12 +523,28 @@ pub fn body(case: &Case, out: &Shared) {
                     return true;
                 }
             }
+            if idx < mut_from {
+                // evaluated by an earlier incarnation of this base run (see `recycle_at`)
+                return true;
+            }
+            if recycle_at.is_some() {
+                return true;
+            }
+            if in_child && only.is_none() && rt::spawned_count() > 9000 {
+                // Every reopen simulation spawns tasks inside this base run's execution, and shuttle
+                // keeps the stack of a finished task mapped until the execution ends: hand the rest
+                // of the mutation list over to a fresh process before the mappings run out.
+                recycle_at = Some(idx);
+                return true;
+            }
             if only.is_none() && deadline_passed() {
                 // the batch's wall-clock budget is used up: the remaining mutations of this base
                 // run are counted, not evaluated (which ones get evaluated never changes a verdict)
                 with_out(out, |o| o.stats.bump("corruptions_skipped_after_batch_deadline", 1));
                 return true;
             }
+            let st_owned = make();
+            let st = &st_owned;
             if in_child {
                 // progress marker: if this process dies (allocation failure aborts rather than
                 // unwinds) the parent knows which mutation killed it
@@ -572,12 +590,15 @@ pub fn body(case: &Case, out: &Shared) {
                     with_out(out, |o| o.stats.bump("exempt_mutations_equivalent_to_torn_tail", 1));
                     continue;
                 }
-                let mut st = image.clone();
-                if let Some(f) = st.file_mut(&t.path) {
-                    f[off] = nb;
-                }
+                let make = || {
+                    let mut st = image.clone();
+                    if let Some(f) = st.file_mut(&t.path) {
+                        f[off] = nb;
+                    }
+                    st
+                };
                 let what = format!("{} byte {} of {} ({} bytes): 0x{:02x} -> 0x{:02x} ({})", class, off, t.path.display(), t.len, b, nb, kind);
-                if !run_one(&st, what, kind) {
+                if !run_one(&make, what, kind) {
                     break 'outer;
                 }
             }
@@ -590,16 +611,24 @@ pub fn body(case: &Case, out: &Shared) {
                 cuts.sort_unstable();
             }
             for cut in cuts {
-                let mut st = image.clone();
-                if let Some(f) = st.file_mut(&t.path) {
-                    f.truncate(cut);
-                }
+                let make = || {
+                    let mut st = image.clone();
+                    if let Some(f) = st.file_mut(&t.path) {
+                        f.truncate(cut);
+                    }
+                    st
+                };
                 let what = format!("table {} truncated from {} to {} bytes", t.path.display(), t.len, cut);
-                if !run_one(&st, what, "truncate") {
+                if !run_one(&make, what, "truncate") {
                     break 'outer;
                 }
             }
         }
+    }
+    if let Some(at) = recycle_at {
+        with_out(out, |o| {
+            o.stats.extra.insert("recycle_at".to_string(), at as u64);
+        });
     }
     with_out(out, |o| {
         for c in classes {
